@@ -15,8 +15,9 @@ RULE = (
     "cases = loss specs (ODE / stationary / non-stationary incl. cartesian space-time batches, and 2-unknown systems) "
     "whose batch carries per-sample values for a non-empty subset of the scalar-like equation parameters (any subset; "
     "other keys of shapes (), (1,), (2,) unbatched), network using theta/phi in its output transform, equation using "
-    "all parameters, optional heterogeneity map (any subset of keys -> a*param + b*first coordinate, other keys None "
-    "or absent). Oracle: per-sample numpy loop: row i of every batched key, the caller's value of every other key; "
+    "all parameters, optional heterogeneity map (any subset of keys -> a*param + b*first coordinate [+ c*base value of another declared "
+    "key], other keys None or absent); the dynamic loss is also evaluated eagerly on one point (value + caller's eq_params "
+    "untouched). Oracle: per-sample numpy loop: row i of every batched key, the caller's value of every other key; "
     "heterogeneous keys replaced inside the equation only (the network still sees the raw value); gradient w.r.t. an "
     "unbatched parameter == finite difference of the reference. Non-trivial = at least one batched and one unbatched "
     "key, batch >= 2 rows (rows are distinct by construction), and when a heterogeneity map is present at least one "
